@@ -286,3 +286,32 @@ def ranked_root(rng, n=None, chain=None, cyc=False):
         layers.append(('m', cur))
         layers2 = rest
     return layers, info
+
+
+def spine_map(rng, depth, leafbase):
+    """nested mapping along keys a/b/c/... of the given depth with sibling leaves"""
+    keys = ['a', 'b', 'c', 'd', 'e']
+    v = ('m', [(S('leaf'), I(leafbase)), (S(rng.choice(['p', 'q'])), scalar(rng))])
+    for i in reversed(range(depth)):
+        es = [(S(keys[i]), v)]
+        if rng.random() < 0.5:
+            es.append((S('s%d' % i), scalar(rng)))
+        rng.shuffle(es)
+        v = ('m', es)
+    return v
+
+
+def deep_ref_layers(rng):
+    """a key defined by several layers, some of them references that resolve to deep mappings:
+    conflicts (same leaf defined by several layers) sit 2-5 levels below the key"""
+    depth = rng.randint(1, 4)
+    nl = rng.randint(2, 4)
+    helpers, layers = [], []
+    for i in range(nl):
+        v = spine_map(rng, depth, i)
+        if rng.random() < 0.55:
+            helpers.append((S('h%d' % i), v))
+            v = S('${h%d}' % i)
+        layers.append(('m', [(S('foo'), v)]))
+    layers[0] = ('m', layers[0][1] + helpers + [(S('via'), S('${foo}'))])
+    return layers
